@@ -117,9 +117,60 @@ func clVisitorTermination(c *Ctx) {
 		// unbuffered: workers must not leave their loop early
 		clNoWorkerWedge(c, fn)
 	} else {
-		_, fromParam := strip(work.Size).(*ssa.Parameter)
-		c.Check(fromParam || !isConstInt(0)(work.Size), fn, work, "work channel is buffered by the shard count", "")
-		c.Note("Visitor: workers may return early because the work channel is buffered with capacity = shards; the bound sends <= shards rests on GetRangeSplitItems returning at most nways-1 pivots (sound for nways >= 2; for nways == 1 it rests on up-to-date level statistics) — accepted instance with its gap, not claimed as decided")
+		// buffered: a worker may return early only if the buffer can take every
+		// shard id the producer will ever send. The number of sends is
+		// len(pivotItems)-1 <= nways of GetRangeSplitItems, so the capacity must
+		// be that very value.
+		early := false
+		for cl := range goClosures(fn) {
+			cfi := p.Info(cl)
+			for _, in := range cfi.Instrs {
+				rcv, ok := in.(*ssa.UnOp)
+				if !ok || rcv.Op != token.ARROW || chanOrigin(rcv.X) != work || !rcv.CommaOk {
+					continue
+				}
+				for _, r := range referrersOf(rcv) {
+					if e, ok := r.(*ssa.Extract); ok && e.Index == 1 {
+						for _, rr := range referrersOf(e) {
+							if ifi, ok := rr.(*ssa.If); ok {
+								if cfi.PathFromBlock(ifi.Block().Succs[0], isReturn, func(x ssa.Instruction) bool { return x == ssa.Instruction(rcv) }) != nil {
+									early = true
+								}
+							}
+						}
+					}
+				}
+			}
+		}
+		if !early {
+			c.Check(true, fn, work, "workers drain the work channel (no early exit)", "")
+		} else {
+			split := p.Func("skiplist", "Skiplist", "GetRangeSplitItems")
+			varOf := func(f *ssa.Function, v ssa.Value) ssa.Value {
+				v = strip(v)
+				if u, ok := v.(*ssa.UnOp); ok && u.Op == token.MUL {
+					switch a := u.X.(type) {
+					case *ssa.Alloc:
+						return a
+					case *ssa.FreeVar:
+						return closureBinding(f, a)
+					}
+				}
+				return v
+			}
+			capVar := varOf(fn, work.Size)
+			same := false
+			for _, f := range WithAnon(fn) {
+				for _, s := range p.CallSites(f, split) {
+					if varOf(f, callOf(s).Args[1]) == capVar {
+						same = true
+					}
+				}
+			}
+			c.Check(same, fn, work, "work channel capacity is the split count that bounds the number of shard ids sent",
+				"workers may return early on a callback error, so the producer must never block: the channel must be able to hold every shard id (capacity = nways of GetRangeSplitItems = shards). With a smaller buffer Visitor hangs once all workers have exited on errors")
+		}
+		c.Note("Visitor: the bound sends <= shards rests on GetRangeSplitItems returning at most nways-1 pivots (sound for nways >= 2; for nways == 1 it rests on up-to-date level statistics) — accepted instance with its gap, not claimed as decided")
 	}
 	// the channel is closed and the close precedes the wait
 	wgWait := p.StdFunc("sync", "WaitGroup", "Wait")
